@@ -41,6 +41,8 @@ import (
 	"sync"
 	"sync/atomic"
 	"time"
+
+	"golang.org/x/sys/unix"
 )
 
 func init() {
@@ -55,14 +57,14 @@ const (
 	// goroutine is still progressing (Q3 territory, and in one process a worker that outlives newSession could go on
 	// using a descriptor number that the finalizer has closed and another case reuses).
 	hsInitTO     = time.Second
-	hsLongTO     = 10 * time.Second       // InitializeTimeout where the failure must come from the fault itself, not from the timer
-	hsChildTO    = 2 * time.Second        // InitializeTimeout of the (not judged) library end that the harness kills or stalls
-	hsSlack      = 3 * time.Second        // allowed on top of InitializeTimeout
-	hsLateLimit  = 200 * time.Millisecond // canary lateness above which a missed bound is inconclusive
-	hsWatchdog   = 20 * time.Second       // "never returned"
-	hsCloseBound = 10 * time.Second       // a session whose peer is gone has to end within this bound
-	hsCensusWait = 10 * time.Second       // a leftover has to persist this long to be reported
-	hsOkTO       = 10 * time.Second       // InitializeTimeout of the success pairings
+	hsLongTO     = 10 * time.Second        // InitializeTimeout where the failure must come from the fault itself, not from the timer
+	hsChildTO    = 1500 * time.Millisecond // InitializeTimeout of the library end in the child that the harness kills or stalls
+	hsSlack      = 3 * time.Second         // allowed on top of InitializeTimeout
+	hsLateLimit  = 200 * time.Millisecond  // canary lateness above which a missed bound is inconclusive
+	hsWatchdog   = 20 * time.Second        // "never returned"
+	hsCloseBound = 10 * time.Second        // a session whose peer is gone has to end within this bound
+	hsCensusWait = 10 * time.Second        // a leftover has to persist this long to be reported
+	hsOkTO       = 10 * time.Second        // InitializeTimeout of the success pairings
 )
 
 var hsSeq uint64
@@ -181,6 +183,39 @@ func hsCensusOnce(sp hsCensusSpec) (left []string) {
 		}
 	}
 	return left
+}
+
+// hsOnlyMemfdDescriptors: nothing but memfd descriptors is left (these are closed synchronously, never by a finalizer,
+// so waiting does not change them).
+func hsOnlyMemfdDescriptors(left []string) bool {
+	for _, l := range left {
+		if !strings.HasPrefix(l, "memfd descriptors") {
+			return false
+		}
+	}
+	return true
+}
+
+// hsCensusPollStalled is the census of an end whose init goroutine the harness parked for ever: it waits (GC, finalizers)
+// only for what a finalizer can still release.
+func hsCensusPollStalled(sp hsCensusSpec, wait time.Duration) []string {
+	deadline := time.Now().Add(wait)
+	sleep := 2 * time.Millisecond
+	for {
+		runtime.GC()
+		runtime.GC()
+		left := hsCensusOnce(sp)
+		if len(left) == 0 {
+			return nil
+		}
+		if hsOnlyMemfdDescriptors(left) || time.Now().After(deadline) {
+			return left
+		}
+		time.Sleep(sleep)
+		if sleep < 100*time.Millisecond {
+			sleep *= 2
+		}
+	}
 }
 
 // hsCensusPoll: returns nil as soon as the census is clean; what is still there after the watchdog otherwise.
@@ -348,6 +383,19 @@ func hsCaseList() []hsCase {
 				cs.Step, cs.StepName = last+1, "after-last-send"
 				cs.Fault = "badpath" // every message of the exchange sent, well-formed, naming memory that cannot be mapped
 				add(cs)
+				// the queue is fine and gets mapped, the buffer cannot be mapped: what was mapped first has to go again
+				for _, f := range []string{"buf-missing", "buf-zeroed", "buf-truncated", "buf-empty"} {
+					cs.Fault = f
+					add(cs)
+				}
+			}
+			if s.kind == "c3m" {
+				for _, f := range []string{"buf-zeroed", "buf-truncated", "buf-empty"} {
+					cs := base
+					cs.Step, cs.StepName = 4, steps[4].Name // the descriptor passing step carries the unusable buffer object
+					cs.Fault = f
+					add(cs)
+				}
 			}
 		}
 	}
@@ -561,6 +609,43 @@ func (j *hsJudge) judgeCensus(sp hsCensusSpec, when string) {
 	j.c.count("census_clean", 1)
 }
 
+// hsMakeBadBuffer creates, next to the raw client's valid queue, a buffer object the server cannot map: a missing file,
+// or an object (file / memfd) that is empty, all zero (no buffer lists), or cut off after a valid header. The queue object
+// stays valid in every variant. The object carries the case prefix, so the census sees every reference to it; the raw
+// peer owns it (memfd: recorded as one more descriptor of its own).
+func hsMakeBadBuffer(raw *rawPeer, prefix string, cs hsCase) error {
+	var content []byte
+	switch cs.Fault {
+	case "buf-zeroed":
+		content = make([]byte, 4096)
+	case "buf-truncated":
+		content = append([]byte{}, raw.bm.mem[:64]...) // valid header that promises far more than 64 bytes
+	case "buf-empty":
+		content = []byte{}
+	}
+	name := prefix + "_badbuffer"
+	if cs.Memfd {
+		fd, err := MemfdCreate(name, 0)
+		if err != nil {
+			return err
+		}
+		if len(content) > 0 {
+			if _, err := unix.Pwrite(fd, content, 0); err != nil {
+				unix.Close(fd)
+				return err
+			}
+		}
+		raw.gotFds = append(raw.gotFds, fd) // owned (and closed) by the raw peer
+		return nil
+	}
+	raw.bufferPath = name
+	if cs.Fault == "buf-missing" {
+		return nil
+	}
+	raw.ownFiles = append(raw.ownFiles, name)
+	return os.WriteFile(name, content, 0o644)
+}
+
 // ---------------------------------------------------------------------------------------------
 // group 2: raw peer faults, library end in this process
 
@@ -623,6 +708,13 @@ func hsRunRawCase(c *checkCtx, cs hsCase, st *hsStats, noise bool) {
 			raw.queuePath += ".missing"
 			raw.bufferPath += ".missing"
 		}
+		if strings.HasPrefix(cs.Fault, "buf-") {
+			if err := hsMakeBadBuffer(raw, prefix, cs); err != nil {
+				libConn.Close()
+				c.inconclusiveCase(cs.name(), "bad buffer object: "+err.Error())
+				return
+			}
+		}
 	}
 	witness := map[string]interface{}{"case": cs, "prefix": prefix, "initialize_timeout_ms": to.Milliseconds()}
 	j := &hsJudge{c: c, cs: cs, st: st, witness: witness, to: to}
@@ -662,6 +754,12 @@ func hsRunRawCase(c *checkCtx, cs hsCase, st *hsStats, noise bool) {
 		switch cs.Fault {
 		case "stall", "badpath":
 			// nothing more is sent; the connection stays open
+		case "buf-missing", "buf-zeroed", "buf-truncated", "buf-empty":
+			if cs.Memfd {
+				// the descriptor passing step, with the unusable object in the buffer's place and the real queue
+				_ = raw.sendFds(raw.gotFds[len(raw.gotFds)-1], raw.qm.memFd)
+			}
+			// file mapping: the metadata already named the unusable buffer file; nothing more is sent
 		case "close":
 			if cs.Step < len(steps) && !steps[cs.Step].Send {
 				raw.closeAbrupt() // pending unread data: the peer may see a reset instead of EOF
@@ -825,6 +923,10 @@ type hsChildMsg struct {
 	Echoed    uint64              `json:"echoed,omitempty"`
 	Maps      map[string][]string `json:"maps,omitempty"`
 	Closed    bool                `json:"closed,omitempty"`
+	MaxLateMs float64             `json:"max_late_ms,omitempty"`
+	// stalled end: newSession returned before the init goroutine got to the stall point (its timer fired on a slow machine)
+	ReturnedBeforeStall bool `json:"returned_before_stall,omitempty"`
+	InitTOms            int  `json:"init_to_ms,omitempty"`
 }
 
 type hsChildCmd struct {
@@ -847,6 +949,7 @@ func hsChildEnd(args []string) {
 	ino := rawSocketInode(conn)
 	conf := hsConf(a.Prefix, a.Memfd, time.Duration(a.InitTOms)*time.Millisecond)
 	var hits hsHits
+	var stalledAt int64
 	k := newCtl("hsend", a.Seed)
 	k.on(vpHandshake, func(obj interface{}, n int64) {
 		if n >= 0 && n < 32 {
@@ -858,9 +961,10 @@ func hsChildEnd(args []string) {
 			dieNow()
 		}
 		if a.StallStep > 0 && int(n) == a.StallStep {
+			atomic.StoreInt64(&stalledAt, time.Now().UnixNano())
 			childLog("stall at hook %d", n)
 			childReply(hsChildMsg{Ev: "stalled", Step: int(n)})
-			select {} // this worker never continues
+			select {} // never released: this worker never continues, so nothing can happen "late" (Q3) in this process
 		}
 		if a.Noise {
 			if r := k.rand(); r&1 == 0 {
@@ -870,10 +974,22 @@ func hsChildEnd(args []string) {
 	})
 	k.install()
 	childReply(hsChildMsg{Ev: "ready"})
-	t0 := time.Now()
-	sess, err := newSession(conf, conn, a.Role == "client")
-	el := time.Since(t0)
-	res := hsChildMsg{Ev: "result", ElapsedMs: float64(el.Microseconds()) / 1000, Hits: hits.list(), Session: sess != nil}
+	lr := hsAwait(hsStartLib(conf, conn, a.Role == "client"), 60*time.Second) // the wait loop is the canary
+	if !lr.returned {
+		childReply(hsChildMsg{Ev: "result", Err: "newSession did not return within 60 s", ElapsedMs: 60000, Hits: hits.list(),
+			MaxLateMs: float64(lr.maxLate.Microseconds()) / 1000, InitTOms: a.InitTOms})
+		childReply(hsChildMsg{Ev: "census", Left: []string{"newSession never returned"}})
+		var cmd hsChildCmd
+		childReadLine(in, &cmd)
+		return
+	}
+	sess, err, el := lr.sess, lr.err, lr.elapsed
+	res := hsChildMsg{Ev: "result", ElapsedMs: float64(el.Microseconds()) / 1000, Hits: hits.list(), Session: sess != nil,
+		MaxLateMs: float64(lr.maxLate.Microseconds()) / 1000, InitTOms: a.InitTOms}
+	if a.StallStep > 0 {
+		at := atomic.LoadInt64(&stalledAt)
+		res.ReturnedBeforeStall = at == 0 || lr.at.UnixNano() < at
+	}
 	if err != nil {
 		res.Err = err.Error()
 		conn.Close() // newSession may refuse before it takes the connection over (memfd over tcp)
@@ -884,11 +1000,13 @@ func hsChildEnd(args []string) {
 	childReply(res)
 	token := a.Prefix + "_"
 	if sess == nil {
-		wait := hsCensusWait
+		sp := hsCensusSpec{token: token, sockIno: ino, checkFiles: a.Role == "client"}
+		var left []string
 		if a.StallStep > 0 {
-			wait = 1500 * time.Millisecond // the end that the harness stalled is not judged, its census is only recorded
+			left = hsCensusPollStalled(sp, hsCensusWait)
+		} else {
+			left = hsCensusPoll(sp, hsCensusWait)
 		}
-		left := hsCensusPoll(hsCensusSpec{token: token, sockIno: ino, checkFiles: a.Role == "client"}, wait)
 		childReply(hsChildMsg{Ev: "census", Left: left})
 	}
 	var echoed uint64
@@ -1163,6 +1281,7 @@ func hsRunLibCase(c *checkCtx, cs hsCase, st *hsStats, noise bool) {
 					connGone = false
 				}
 			}
+			hsJudgeStalledEnd(c, cs, st, h, &seen, witness)
 			if connGone {
 				// the peer has failed and dropped the connection but its process lives on: that must be enough
 				c.count("peer_failed_but_process_alive_when_session_end_was_judged", 1)
@@ -1185,9 +1304,77 @@ func hsRunLibCase(c *checkCtx, cs hsCase, st *hsStats, noise bool) {
 	st.addElapsed("error after "+cs.Fault, r.elapsed)
 	c.count("judged_end_returned_error", 1)
 	j.judgeCensus(hsCensusSpec{token: token, sockIno: sockIno, checkFiles: yIsClient}, "after the failed handshake")
+	if cs.Fault == "stall-lib" {
+		hsJudgeStalledEnd(c, cs, st, h, &seen, witness)
+	}
 	if cs.Round == 0 && cs.Step == 10 && cs.Fault == "die" {
 		c.sample(map[string]interface{}{"case": cs.key(), "judged_end_error": r.err.Error(), "elapsed_ms": float64(r.elapsed.Microseconds()) / 1000,
 			"initialize_timeout_ms": to.Milliseconds(), "hook_points_hit_by_judged_end": hits.list(), "child": seen, "census": "clean"})
+	}
+}
+
+// hsJudgeStalledEnd judges the end X whose init goroutine the harness parked for ever at a hook point (it runs in the
+// child): newSession must give up with an error at X's own InitializeTimeout, and at that moment nothing that X had
+// already mapped or created may be left, nor its connection. The parked goroutine is never released, so nothing can
+// happen late (Q3). Descriptors X had received but not mapped yet when it was parked live only in the parked
+// goroutine's frame: they are in flight, not left behind by the clean-up, and are counted but not judged.
+func hsJudgeStalledEnd(c *checkCtx, cs hsCase, st *hsStats, h *hsChild, seen *[]hsChildMsg, witness map[string]interface{}) {
+	find := func(ev string) (hsChildMsg, bool) {
+		for i := len(*seen) - 1; i >= 0; i-- {
+			if (*seen)[i].Ev == ev {
+				return (*seen)[i], true
+			}
+		}
+		return hsChildMsg{}, false
+	}
+	if _, ok := find("census"); !ok && h.cp != nil {
+		h.expect("census", 70*time.Second+hsCensusWait, seen)
+	}
+	res, ok1 := find("result")
+	cm, ok2 := find("census")
+	w := map[string]interface{}{"case": cs, "judged": "the stalled end X (child)", "child_messages": *seen, "parent_witness": witness}
+	name := cs.name() + "-stalled-end"
+	if !ok1 || !ok2 {
+		c.inconclusiveCase(name, "the stalled child did not report its result and census")
+		return
+	}
+	if res.ReturnedBeforeStall {
+		c.inconclusiveCase(name, fmt.Sprintf("the stalled end's InitializeTimeout (%d ms) fired before its init goroutine reached hook point %d", res.InitTOms, cs.Step))
+		return
+	}
+	c.count("stalled_end_judged", 1)
+	to := time.Duration(res.InitTOms) * time.Millisecond
+	el := time.Duration(res.ElapsedMs * float64(time.Millisecond))
+	late := time.Duration(res.MaxLateMs * float64(time.Millisecond))
+	switch {
+	case res.Session:
+		c.violation(name, w, "the end whose init goroutine is parked for ever at hook point %d returned a session", cs.Step)
+	case el > to+hsSlack:
+		if late >= hsLateLimit {
+			c.inconclusiveCase(name, fmt.Sprintf("gave up after %v on a machine that was late by %v", el, late))
+		} else {
+			c.violation(name, w, "the end whose init goroutine is parked at hook point %d needed %v to give up (InitializeTimeout %v + slack %v)", cs.Step, el, to, hsSlack)
+		}
+	default:
+		st.addElapsed("stalled end's own time-out", el)
+	}
+	var judged, inflight []string
+	for _, l := range cm.Left {
+		if strings.HasPrefix(l, "memfd descriptors") {
+			inflight = append(inflight, l)
+		} else {
+			judged = append(judged, l)
+		}
+	}
+	if len(judged) > 0 {
+		w["leftovers"] = cm.Left
+		c.violation(name, w, "census of the end that timed out with its init goroutine parked at hook point %d: left behind: %s", cs.Step,
+			truncate(strings.Join(cm.Left, "; "), 500))
+		return
+	}
+	c.count("stalled_end_census_clean", 1)
+	if len(inflight) > 0 {
+		c.count("stalled_end_descriptors_in_flight_in_parked_goroutine_not_judged", 1)
 	}
 }
 
